@@ -5,7 +5,8 @@ P=$1
 N=$(/venv/bin/python harness/seedimport.py $P /tmp/${SEEDPFX:-seed2}_$P | tail -1)
 git -C /repo worktree remove --force /tmp/${SEEDPFX:-seed2}_$P 2>/dev/null; rm -rf /tmp/${SEEDPFX:-seed2}_$P /tmp/${P}_scratch
 for s in $N; do
-  /venv/bin/python harness/seedtest.py $s --tests 2>&1 | grep "^SEED" | cut -c1-260
+  T=--tests; [ -n "$SEEDNOTESTS" ] && T=
+  /venv/bin/python harness/seedtest.py $s $T 2>&1 | grep "^SEED" | cut -c1-260
   /venv/bin/python -c "
 import json;r=json.load(open('/verif/out/seedtests/$s.json'));print('   tests_rc=',r.get('tests_rc'),(r.get('tests_tail') or '').strip().split(chr(10))[-1][:100])"
 done
